@@ -240,7 +240,17 @@ func sortStrings(s []string) {
 
 func genHeader() string {
 	pi := loadPkg(filepath.Join(*repo, "protocol"))
+	usePkg(pi)
 	consts, constText := protocolConsts(pi)
+	// only the protocol's own enumeration constants keep their names in the generated accessors;
+	// any other named constant (a mask, say) is resolved to its value
+	canonical := map[string]bool{"magicNumber": true, "Request": true, "Response": true, "Normal": true, "Error": true, "None": true, "Gzip": true,
+		"SerializeNone": true, "JSON": true, "ProtoBuffer": true, "MsgPack": true, "Thrift": true}
+	for name := range consts {
+		if !canonical[name] {
+			delete(consts, name)
+		}
+	}
 	var sb strings.Builder
 	sb.WriteString("-- GENERATED by /verif/go/extract from protocol/message.go — do not edit.\n")
 	sb.WriteString("import Rpcx.Basic\nnamespace Rpcx.Gen\n\n")
